@@ -540,6 +540,9 @@ func (fc *FCtx) specCall(n *SNode, env *Env) Val {
 	case "enc":
 		evalArgs()
 		return Val{T: app(fc.encFn(args[0].S), args[0].T), S: fc.U.BzSort()}
+	case "unboxStr":
+		evalArgs()
+		return Val{T: app(fc.unboxFn(SStr, args[0].S), args[0].T), S: SStr}
 	case "addrstr":
 		evalArgs()
 		fc.bech32Fns()
